@@ -38,7 +38,11 @@ MESH = {"want": ("findanswer",), "claim": ("mesh:find-not-answered", "mesh:unica
         "quick": (2, 60), "thorough": (16, 1500)}
 
 POOL = [(0x5001, 1, 1, 10), (0x5001, 2, 1, 10), (0x5001, 1, 2, 11), (0x5002, 1, 1, 10), (0x5001, 3, 1, 12)]
-PEERS = [("10.0.8.9", 30490), ("2001:db8::89", 30490, 0, 0)]
+PEERS = [("10.0.8.9", 30490), ("2001:db8::89", 30490, 0, 0),
+         # one link-local address behind two interfaces, and two ports of one host: requesters that differ in one component only
+         ("fe80::89", 30490, 0, 2), ("fe80::89", 30490, 0, 3), ("10.0.8.9", 30491)]
+SIBLING = {("fe80::89", 30490, 0, 2): ("fe80::89", 30490, 0, 3), ("fe80::89", 30490, 0, 3): ("fe80::89", 30490, 0, 2),
+           ("10.0.8.9", 30490): ("10.0.8.9", 30491), ("10.0.8.9", 30491): ("10.0.8.9", 30490)}
 W = (0xFFFF, 0xFF, 0xFFFFFFFF)
 CLASSES = ("initial-wait", "first-offer:d-eps", "first-offer:before", "first-offer:after", "first-offer:d+eps", "first-offer:d-res", "in-collector",
            "repetition", "main", "stop:d-eps", "stop:same-before", "stop:same-after", "stop:d+eps", "stopped", "restart-while-pending")
@@ -230,7 +234,7 @@ def build(rng):
         script.sort(key=lambda it: (it[0], it[1]))
     peers = [peer]
     if twin:
-        other = [p for p in PEERS if p != peer][0]
+        other = SIBLING.get(peer) or [p for p in PEERS if p != peer][0]
         peers.append(other)
         idx = next(i for i, it in enumerate(script) if it[2]["kind"] == "find")
         script.insert(idx + 1, (y, rank, dict(kind="find", peer=other, mc=mc, entries=entries)))
